@@ -6,6 +6,7 @@
 //!
 //! Case syntax (K = alg secret-hex keyname-wire-hex min|- sign|-):
 //!   newkey alg min|- sign|-                      -> Ok min sign | KeyErr ..
+//!   genkey alg min|- sign|- secret|-              -> Ok min sign secretlen | KeyErr ..   (Key::generate; secret = the octets it returned)
 //!   time self other fudge                        -> true|false
 //!   hmac alg key msg                             -> hex
 //!   creq K msg now fudge                         -> Ok wire
@@ -416,10 +417,10 @@ impl Capped for Out {
     }
 }
 
-fn t2_creq(x: &mut Ctx, k: &KeySpec, msg: &[u8], now: u64, fudge: u16) -> Option<(ClientTransaction<Key>, Vec<u8>)> {
+/// `key` is the library key `k` describes: from Key::new, or from Key::generate with k.secret the octets it returned
+fn t2_creq(x: &mut Ctx, k: &KeySpec, key: Key, msg: &[u8], now: u64, fudge: u16) -> Option<(ClientTransaction<Key>, Vec<u8>)> {
     let case = format!("creq {} {} {} {}", k.words(), hex(msg), now, fudge);
     x.out.begin(&case);
-    let key = k.lib().ok()?;
     let mut b = builder_from(msg);
     if b.as_slice() != msg { x.out.count("skipped_rebuild"); return None; }
     let tr = ClientTransaction::request_with_fudge(key, &mut b, Time48::from_u64(now), fudge).ok()?;
@@ -428,6 +429,8 @@ fn t2_creq(x: &mut Ctx, k: &KeySpec, msg: &[u8], now: u64, fudge: u16) -> Option
     // oracle: octets and MAC per RFC 8945
     let (_, want) = rfc_sign(x.c, k, &[], msg, now, fudge, 0, &[], false);
     x.out.check_c(wire == want, "request_mac_rfc8945", &case, &format!("implementation {} reference {}", hex(&wire), hex(&want)));
+    // the callers cut the signed request at the reference's offsets
+    if wire.len() != want.len() { x.out.count("skipped_request_layout"); return None; }
     Some((tr, wire))
 }
 
@@ -439,6 +442,17 @@ fn main() {
     let scale = a.scale as usize;
     let thorough = a.thorough;
     let mut idx = 0u64;
+
+    // Key::generate wants a ring SecureRandom: the trait is sealed and the harness has no ring dependency of
+    // its own, so borrow the SystemRandom that a ring DNSSEC key pair of the library carries in a public field
+    let ring_kp = domain::crypto::sign::generate(&domain::crypto::sign::GenerateParams::EcdsaP256Sha256, 256).ok()
+        .and_then(|(sk, pk)| domain::crypto::ring::sign::KeyPair::from_bytes(&sk, &pk).ok());
+    let Some(domain::crypto::ring::sign::KeyPair::EcdsaP256Sha256 { rng: sys_rng, .. }) = &ring_kp else { panic!("no SecureRandom for Key::generate") };
+    // the generated key and the octets of its secret
+    let generate = |k: &KeySpec| -> Result<(Key, Vec<u8>), String> {
+        let name = KeyName::from_octets(domain::dep::octseq::array::Array::<255>::try_from(&k.name[..]).map_err(|_| "array")?).map_err(|e| format!("{}", e))?;
+        Key::generate(k.alg.lib(), &**sys_rng, name, k.min, k.sign).map(|(key, bits)| (key, bits.as_ref().to_vec())).map_err(|e| format!("{:?}", e))
+    };
 
     // ---- 0. reference self-test against ring through the public API is implicit (every MAC);
     //         plus raw HMAC cases for the model (RFC 4231 test case 2 first)
@@ -461,15 +475,29 @@ fn main() {
         for &mn in &vals {
             for &sg in [None, Some(alg.native()), Some(alg.native() / 2), Some(9), Some(alg.native() + 1), Some(std::cmp::max(10, alg.native() / 2) - 1)].iter() {
                 for (m, s) in [(mn, sg), (sg, mn)] {
-                    idx += 1; if !out.wants(idx) { continue; }
+                    idx += 2; let (want_new, want_gen) = (out.wants(idx - 1), out.wants(idx));
                     let ks = KeySpec { alg, secret: vec![1, 2, 3], name: vec![0], min: m, sign: s };
+                    let okl = |l: Option<usize>| l.map_or(true, |l| l >= std::cmp::max(10, alg.native() / 2) && l <= alg.native());
+                    // "all keys (.., min_mac_len, signing_len)": each setting governs its own side (absent = full length)
+                    let settings = |k: &Key| k.min_mac_len() == ks.min_len() && k.signing_len() == ks.sign_len() && k.native_len() == alg.native() && k.algorithm() == alg.lib();
+                    if want_new {
                     let case = format!("newkey {} {} {}", alg.word(), m.map_or("-".into(), |x| x.to_string()), s.map_or("-".into(), |x| x.to_string()));
                     let res = ks.lib();
                     let obs = match &res { Ok(k) => format!("Ok {} {}", k.min_mac_len(), k.signing_len()), Err(e) => format!("KeyErr {}", e) };
                     out.case(&case, &obs, true, "newkey");
                     // RFC 8945 5.2.2.1 / 5.2.4: at least max(10, half the digest), at most the digest length
-                    let okl = |l: Option<usize>| l.map_or(true, |l| l >= std::cmp::max(10, alg.native() / 2) && l <= alg.native());
                     out.check_c(res.is_ok() == (okl(m) && okl(s)), "truncation_bounds", &case, &obs);
+                    if let Ok(k) = &res { out.check_c(settings(k), "key_truncation_settings", &case, &obs); }
+                    }
+                    // the alternative constructor: same bounds, same settings (the model also fixes the secret's length)
+                    if !want_gen { continue; }
+                    let gres = generate(&ks);
+                    let secret = gres.as_ref().map_or(vec![], |(_, b)| b.clone());
+                    let case = format!("genkey {} {} {} {}", alg.word(), m.map_or("-".into(), |x| x.to_string()), s.map_or("-".into(), |x| x.to_string()), hex(&secret));
+                    let obs = match &gres { Ok((k, b)) => format!("Ok {} {} {}", k.min_mac_len(), k.signing_len(), b.len()), Err(e) => format!("KeyErr {}", e) };
+                    out.case(&case, &obs, true, "genkey");
+                    out.check_c(gres.is_ok() == (okl(m) && okl(s)), "truncation_bounds", &case, &obs);
+                    if let Ok((k, _)) = &gres { out.check_c(settings(k), "key_truncation_settings", &case, &obs); }
                 }
             }
         }
@@ -503,11 +531,21 @@ fn main() {
         let mut x = Ctx { out: &mut out, c: &consts };
         // corpus slot 4 (regression, thorough run of round 3): key name  a.-l-DntahGd2h.  behind an additional A record:
         // RDLENGTH 4 -> 6 lets that record swallow the first label of the TSIG owner, the request stays well formed
-        let kc = if it < 4 { KeySpec { alg: Alg::all()[it], secret: b"0123456789abcdef0123".to_vec(), name: b"\x03Key\x07Example\x00".to_vec(), min: None, sign: None } }
+        let mut kc = if it < 4 { KeySpec { alg: Alg::all()[it], secret: b"0123456789abcdef0123".to_vec(), name: b"\x03Key\x07Example\x00".to_vec(), min: None, sign: None } }
                  else if it == 4 { KeySpec { alg: Alg::S256, secret: b"0123456789abcdef0123".to_vec(), name: b"\x01a\x0c-l-DntahGd2h\x00".to_vec(), min: None, sign: None } }
                  else { gen_key(&mut r) };
-        let ks = if it <= 4 { kc.clone() } else { gen_peer(&mut r, &kc) };
-        let (_kcl, ksl) = match (kc.lib(), ks.lib()) { (Ok(a), Ok(b)) => (a, b), _ => { x.out.count("bad_key_gen"); continue } };
+        let mut ks = if it <= 4 { kc.clone() } else { gen_peer(&mut r, &kc) };
+        // two in five of the random exchanges run with a key from Key::generate on one side (0: client, 1: server);
+        // the other side loads the exported secret with Key::new.  From here on kc/ks describe those keys.
+        let gen_side = if it > 4 { r.below(5) } else { 9 };
+        let generated = if gen_side < 2 {
+            match generate(if gen_side == 0 { &kc } else { &ks }) {
+                Ok((k, bits)) => { kc.secret = bits.clone(); ks.secret = bits; x.out.count(if gen_side == 0 { "generated_client_key" } else { "generated_server_key" }); Some(k) }
+                Err(_) => { x.out.count("bad_key_gen"); continue }
+            }
+        } else { None };
+        let (kcl, ksl) = match (kc.lib(), ks.lib()) { (Ok(a), Ok(b)) => (a, b), _ => { x.out.count("bad_key_gen"); continue } };
+        let (kcl, ksl) = match (gen_side, generated) { (0, Some(g)) => (g, ksl), (1, Some(g)) => (kcl, g), _ => (kcl, ksl) };
         let t = match r.below(5) { 0 => r.below(1000), 1 => (1u64 << 48) - 1 - r.below(1000), _ => 1_600_000_000 + r.below(1 << 28) };
         let fudge: u16 = match r.below(4) { 0 => 300, 1 => 0, 2 => 65535, _ => r.below(4000) as u16 };
         let id = r.u16();
@@ -515,7 +553,7 @@ fn main() {
             let mut m = vec![0u8; 12]; m[0..2].copy_from_slice(&id.to_be_bytes()); m[5] = 1; m[11] = 1;
             m.extend_from_slice(b"\x03www\x00\x00\x10\x00\x01"); m.extend_from_slice(b"\x00\x00\x01\x00\x01\x00\x00\x00\x07\x00\x04\x09\x09\x09\x74"); m
         } else { gen_message(&mut r, id, false).as_slice().to_vec() };
-        let Some((tr, wire)) = t2_creq(&mut x, &kc, &req, t, fudge) else { continue };
+        let Some((tr, wire)) = t2_creq(&mut x, &kc, kcl, &req, t, fudge) else { continue };
         // verification time inside the window (boundaries included)
         let off: i64 = match r.below(5) { 0 => fudge as i64, 1 => -(fudge as i64), 2 => 0, _ => r.range(0, 2 * fudge as u64) as i64 - fudge as i64 };
         let now = (t as i64 + off).clamp(0, (1i64 << 48) - 1) as u64;
@@ -762,6 +800,7 @@ fn main() {
         let reqmac = wire[wire.len() - 6 - kc.sign_len()..wire.len() - 6].to_vec();
         let (_, want) = rfc_sign(x.c, &ks, &with_len(&reqmac), &ans, t2, fudge2, 0, &[], false);
         x.out.check_c(awire == want, "answer_mac_rfc8945", &case, &format!("implementation {} reference {}", hex(&awire), hex(&want)));
+        if awire.len() != want.len() { x.out.count("skipped_answer_layout"); continue; }   // the mutations below cut at the reference's offsets
         // client side
         let off2: i64 = match r.below(4) { 0 => fudge2 as i64, 1 => -(fudge2 as i64), _ => r.range(0, 2 * fudge2 as u64) as i64 - fudge2 as i64 };
         let now2 = (t2 as i64 + off2).clamp(0, (1i64 << 48) - 1) as u64;
@@ -1363,7 +1402,11 @@ fn main() {
         let mut ks = kc.clone(); ks.min = Some(std::cmp::max(10, kc.alg.native() / 2));
         if it % 3 == 2 { ks.sign = Some(r.range(std::cmp::max(10, kc.alg.native() / 2) as u64, kc.alg.native() as u64) as usize); } else { ks.sign = None; }
         let mut kcv = kc.clone(); kcv.min = Some(std::cmp::max(10, kc.alg.native() / 2));
+        // every fourth stream (of those a ServerSequence signs): the server's key comes from Key::generate, the client loads the exported secret
+        let mut gen_s = None;
+        if it % 4 == 2 { if let Ok((k, bits)) = generate(&ks) { ks.secret = bits.clone(); kcv.secret = bits; gen_s = Some(k); out.count("generated_sequence_key"); } }
         let (Ok(kcl), Ok(ksl)) = (kcv.lib(), ks.lib()) else { continue };
+        let ksl = gen_s.unwrap_or(ksl);
         let t = 1_700_000_000 + r.below(100000);
         let id = r.u16();
         let req = gen_message(&mut r, id, false).as_slice().to_vec();
